@@ -127,7 +127,8 @@ impl SetSketchParams {
         let jsup = (b_aux * b_aux - 1.) / (self.b - 1.);
         //
         let b_inf = 2. * (b_aux * self.b.sqrt() - 1.) / (self.b - 1.) - 1.;
-        let jinf = b_inf.max(0.);
+        // both bounds meet when jac goes to 1, rounding errors must not make the lower one exceed the upper one
+        let jinf = b_inf.max(0.).min(jsup);
         //
         log::debug!("b_inf : {:.5e}, b_aux : {:.3e}", b_inf, b_aux);
         //
